@@ -647,8 +647,10 @@ def _fit_windows(
     windows['range', 0] = center - width / 2
     windows['range', 1] = np.nextafter(center.values + width.value / 2, np.inf)
 
-    windows = _clip_to_data_range(data, windows)
+    # Separate first and clip last: the separation bounds are computed from the
+    # estimates, which may lie outside the data range.
     _separate_from_neighbors_in_place(center, windows, fit_parameters)
+    windows = _clip_to_data_range(data, windows)
 
     return windows
 
